@@ -201,6 +201,33 @@ theorem C25_with_collector (sort : List File → List File) (hsort : ∀ l, (sor
     rw [hc i]
     exact collect_ctr sort ops i
 
+/-! ### further upstream: sendByRepository (search/shards.go) -/
+
+/-- **sendByRepository: for every shard result**, the events sent carry every file exactly once (each run of one
+    repository ranked on its own: a permutation), the statistics exactly once (with the last event), and every event
+    holds files of a single repository when the result is split -/
+theorem byrepo_conserves (sort : List RFile → List RFile) (hsort : ∀ l, (sort l).Perm l) (multi : Bool) (stats : Stats)
+    (files : List RFile) :
+    (outFiles (byRepo sort multi stats files)).Perm files ∧
+    (∀ i, outCtr (byRepo sort multi stats files) i = stats.ctr i) := by
+  unfold byRepo
+  split
+  · exact ⟨by simpa [outFiles] using hsort files, fun i => by simp [outCtr]⟩
+  · rename_i h
+    have hne : files ≠ [] := by
+      intro hn; subst hn; simp at h
+    refine ⟨?_, fun i => attachStats_ctr sort stats _ (groups_ne_nil files hne) i⟩
+    have := attachStats_files sort hsort stats (groups files)
+    rwa [groups_flatten] at this
+
+/-- when a result is split, each run holds one repository's files only -/
+theorem byrepo_single_repository (files : List RFile) : ∀ g ∈ groups files, ∃ r, ∀ f ∈ g, f.repo = r := by
+  cases files with
+  | nil => simp [groups]
+  | cons f rest => exact groupLoop_same_repo f.repo [f] rest (by simp)
+
+example : groups [⟨1, 7⟩, ⟨2, 7⟩, ⟨3, 8⟩, ⟨4, 7⟩] = [[⟨1, 7⟩, ⟨2, 7⟩], [⟨3, 8⟩], [⟨4, 7⟩]] := by decide
+
 /-! ### generated-table obligations (api.go, api_proto.go, sampling.go, chunker.go of the current tree)
 
 The model's `Stats` is "the vector of counters that `Add` adds, and `Zero` is true iff all of them are 0".
